@@ -91,7 +91,7 @@ def check_lines_premises(prog: Program, res: Result) -> None:
     fc = prog.cls(f"{PG}:PAFScorer").methods.get("from_config")
     res.touch(fc)
     cc = [c for c in walk_function(fc.node) if isinstance(c, ast.Call) and norm(c.func) == "cls"]
-    kw = {k.arg: norm(k.value) for k in cc[0].keywords} if len(cc) == 1 else {}
+    kw = {k.arg: astq.xnorm(fc.node, k.value) for k in cc[0].keywords} if len(cc) == 1 else {}
     ok = kw.get("pafs_stride") == "config.pafs.output_stride" and kw.get("part_names") == "config.confmaps.part_names" and kw.get("edges") == "config.pafs.edges"
     res.ob(R, ok, fc.qualname, "pafs_stride/edges from the PAF head config, part_names from the confmap head config", f"PAFScorer.from_config binds {kw}", fc.where)
     res.floor(R, 10)
